@@ -443,6 +443,12 @@ impl<'a> Interp<'a> {
                         }
                     } else {
                         st.errors.push(leaf(LeafKind::Duplicate, Where::Item(it.id), &name));
+                        // the repeat is a mistake of its own; what is wrong *inside* the repeated item is
+                        // another one (C02: none is dropped because another was found first - whichever
+                        // of the two occurrences carries it)
+                        if let Err(l) = self.convert_field(f, it) {
+                            st.errors.extend(prefix(span_default(l, Where::Item(it.id)), &name));
+                        }
                     }
                 }
                 None => {
